@@ -92,7 +92,7 @@ def run_check(pid, tier, seed, nworkers=None, verbose=True):
                     keys.add(r["key"])
                 if r.get("sample") is not None and len(samples) < 8 and r.get("status") == "checked":
                     samples.append(r["sample"])
-                if r.get("status") == "error" and len(errors) < 5:
+                if r.get("status") in ("error", "timeout") and len(errors) < 8:
                     errors.append({"error": r.get("error"), "tb": r.get("tb"), "case": r.get("case")})
                 for fl in r.get("fails") or []:
                     fails.append((fl, r.get("case"), r["i"]))
@@ -120,6 +120,13 @@ def run_check(pid, tier, seed, nworkers=None, verbose=True):
         violations.append((fl, case, idx))
 
     os.makedirs(os.path.join(VERIF, "replays"), exist_ok=True)
+    if os.environ.get("VQ_DUMP"):
+        with open(os.path.join(VERIF, "replays", f"{pid}-violations.jsonl"), "w") as f:
+            for fl, case, idx in violations:
+                f.write(json.dumps({"fail": fl, "case": case, "i": idx}, default=str) + "\n")
+            for fl, case, idx in fails:
+                if fl.get("pred") and fl["pred"] in openf:
+                    f.write(json.dumps({"known": fl["pred"], "fail": fl, "case": case, "i": idx}, default=str) + "\n")
     lines = []
     vio_kinds = Counter()
     for fl, case, idx in violations:
@@ -175,7 +182,7 @@ def run_check(pid, tier, seed, nworkers=None, verbose=True):
             "hash_seeds": sorted(x for x in hashseeds if x is not None),
             "known_finding_hits": dict(known),
             "inconclusive": inconclusive,
-            "harness_errors": errors[:3],
+            "harness_errors": errors[:6],
             "workers": len(procs),
         },
         "assumptions": getattr(mod, "ASSUMPTIONS", []),
